@@ -100,6 +100,38 @@ CLAIMED["C12"] = dict(
     technique="algebraic value numbering of sibling implementations; equality of canonical forms",
 )
 
+CLAIMED["C01"] = dict(
+    category="proof",
+    text="Every class under felupe/mechanics that builds Assemble(vector=, matrix=) (12 discovered) is instantiated from source on a "
+    "symbolic micro-instance: felupe's own Field / FieldPlaneStrain / FieldAxisymmetric / FieldContainer on a fake region with symbolic "
+    "basis arrays and symbolic field values; the material is an arbitrary hyperelastic energy given as an opaque function atom. The "
+    "assembled vector r and matrix K (dense value of the abstract sparse matrix, i.e. after global placement) satisfy "
+    "K[I,J] == d r[I]/d x[J] for every pair of global unknowns -- 3D, plane strain, axisymmetric, mixed u/p/J (NearlyIncompressible, "
+    "ThreeFieldVariation), the condensed nearly-incompressible body at the settled state its own extract produces, follower pressure, "
+    "Cauchy-stress load, multi-point constraint and contact (both sides of the switch), and K == K^T where required; load items: "
+    "vector independent of the unknowns, zero matrix; the solver applies the multiplier alike to vector and matrix; repeated "
+    "assembly returns the same values.",
+    design_ref="DESIGN.md section 3, C01",
+    note="Trusted: C03 for each concrete material (here an opaque W); scipy.sparse summaries; the micro-instance bound (2 cells x 2 "
+    "basis functions x 2 quadrature points; the kernels' index algebra is size-polymorphic). ThreeFieldVariation on an "
+    "axisymmetric field is run in the thorough tier only (expression size).",
+    technique="algebraic value numbering end-to-end on a symbolic micro-instance; total derivative of the assembled vector",
+)
+CLAIMED["C02"] = dict(
+    category="proof",
+    text="IntegralFormCartesian (linear / bilinear, all four grad flag combinations, scalar and vector fields on two different regions, "
+    "explicit and omitted size-one integrand axes, None integrand), IntegralFormAxisymmetric (modes 1, 2, 30, 10, 40 incl. None), "
+    "IntegralForm block modes 1/2/3 with absent blocks, trimming of 3D integrands on 2D fields, uniform-region broadcast and the "
+    "parallel flag are evaluated from source on the symbolic micro-instance; the dense value of the assembled sparse matrix is "
+    "compared entry-wise with the defining sums coded in the checker, including the global row/column of every contribution "
+    "(field indices come from felupe's own Field._indices_per_cell) and the 2 pi R weight / hoop terms on the radial component.",
+    design_ref="DESIGN.md section 3, C02",
+    note="Trusted: scipy.sparse duplicate summation, bmat/vstack (summarised); einsumt == einsum; the defining sums in "
+    "fverif/props/c02.py. Not yet covered: the Form expression API (O9) and the thread-discipline lint (O8.ii); the value-type "
+    "axisymmetric linear form with a 3-component integrand is not specified by the property and not checked.",
+    technique="algebraic value numbering of the assembly kernels on a symbolic micro-instance; comparison with defining sums",
+)
+
 NOT_APPLICABLE = {}
 
 TODO_REASON = "check not built yet in this session (static rule designed in DESIGN.md; will be claimed once its checker is committed)"
